@@ -185,7 +185,10 @@ def _slim(t: dict) -> dict:
 EDGE = ["SELECT '{' , '}}' FROM t\n", "a { % b\n", "#}\n", "{ {\n", "{\n{\n", "SELECT 1 -- {x}\n", "%}{\n", "{", "}}",
         "\n", " ", "# only\n", "SELECT '{{' FROM t\n", "SELECT {# c\n", "{% if %}\n", "SELECT {{ 1 }\n", "a\n\n\n",
         "SELECT \\{\\{ x\n", "{{ '{{' }}\n", "{# {{ #}x\n", "{%- raw -%} {{ {%- endraw -%}\n", "﻿SELECT 1\n",
-        "SELECT ' ' {{ 1 }} x\n", "a\x0bb\x0cc {{ 1 }}\n"]
+        "SELECT ' ' {{ 1 }} x\n", "a\x0bb\x0cc {{ 1 }}\n",
+        # an ordinary brace before the first tag: the file still has to go through Jinja
+        "SELECT '{\"k\": 1}' AS j, {{ v }} FROM {{ v }}\n", "SELECT '{}' , {{ v }}\n", "SELECT ${x}, {% if t %}a{% endif %}\n",
+        "SELECT '{1,2}' {# c #}\n", "{ {{ v }}\n", "SELECT '}{' {{ v }} '{'\n", "{x}{%- if t -%} a {%- endif -%}\n"]
 UNDEF = [("print", "SELECT {{ u }} FROM t\n"), ("attr", "SELECT {{ u.x }} FROM t\n"), ("item", "SELECT {{ u['k'] }} FROM t\n"),
          ("iterate", "SELECT {% for x in u %}a{% endfor %} FROM t\n"), ("filter", "SELECT {{ u|upper }} FROM t\n"),
          ("default-filter", "SELECT {{ u|default('d') }} FROM t\n"), ("concat", "SELECT {{ u ~ 'x' }} FROM t\n"),
